@@ -51,10 +51,21 @@ class Interp:
         v = env.get(p["l"], TOP)
         for pr in p["proj"]:
             k = pr["k"]
-            if k == "field" and v[0] == "tuple":
+            if k == "field" and v[0] == "tuple" and pr["i"] < len(v[1]):
                 v = v[1][pr["i"]]
             elif k == "deref" and v[0] == "ref":
                 v = env.get(v[1], TOP)
+            elif k == "deref" and v[0] == "pref":
+                v = v[1]
+            elif k == "index" and v[0] == "arr":
+                i = env.get(pr["l"], TOP)
+                if not is_iv(i):
+                    return TOP
+                if not single(i):
+                    raise Undecided()
+                if not (0 <= i[1] < len(v[1])):
+                    raise Unsupported("index out of bounds")
+                v = v[1][i[1]]
             else:
                 return TOP
         return v
@@ -68,6 +79,20 @@ class Interp:
                 return iv(int(c["int"]))
             if "bool" in c:
                 return iv(1 if c["bool"] else 0)
+            if "array_bytes" in c:
+                return ("arr", [iv(int(x)) for x in c["array_bytes"]])
+            if "bytes" in c:
+                return ("pref", ("arr", [iv(int(x)) for x in c["bytes"]]))
+            if "promoted" in c:
+                body = getattr(self.mir, "owner", None)
+                proms = body.promoted if body is not None else []
+                if c["promoted"] < len(proms):
+                    sub = Interp(proms[c["promoted"]], self.call_model, self.max_steps)
+                    env2 = {}
+                    r = sub.run({}, env_out=env2)
+                    if r[0] == "ref":
+                        return ("pref", env2.get(r[1], TOP))
+                    return r
             return TOP
         return TOP
 
@@ -198,8 +223,9 @@ class Interp:
             if len(p["proj"]) == 1 and p["proj"][0]["k"] == "deref":
                 return env.get(p["l"], TOP)
             return TOP
-        if k == "aggr" and rv["agg"] == "tuple":
-            return ("tuple", [self.operand(env, f) for f in rv["fields"]])
+        if k == "aggr" and rv["agg"] in ("tuple", "adt", "array"):
+            vals = [self.operand(env, f) for f in rv["fields"]]
+            return ("arr", vals) if rv["agg"] == "array" else ("tuple", vals)
         if k == "discr":
             v = self.read_place(env, rv["place"])
             if v[0] == "enum":
@@ -208,8 +234,39 @@ class Interp:
         return TOP
 
     # -- run ---------------------------------------------------------------------------------
-    def run(self, init):
-        env = dict(init)
+    def deref(self, env, v):
+        for _ in range(4):
+            if v[0] == "ref":
+                v = env.get(v[1], TOP)
+            elif v[0] == "pref":
+                v = v[1]
+            else:
+                break
+        return v
+
+    def builtin_call(self, env, t, args):
+        """range membership on intervals"""
+        p = t["callee"].get("path", "")
+        if p.endswith("::new") and "RangeInclusive" in p and len(args) == 2:
+            return ("tuple", [args[0], args[1], iv(0)])
+        if p.endswith("::contains") and ("RangeInclusive" in p or "ops::Range" in p) and len(args) == 2:
+            r = self.deref(env, args[0])
+            x = self.deref(env, args[1])
+            if r[0] == "tuple" and len(r[1]) >= 2 and is_iv(r[1][0]) and is_iv(r[1][1]) and single(r[1][0]) and single(r[1][1]) and is_iv(x):
+                lo, hi = r[1][0][1], r[1][1][1]
+                if "RangeInclusive" not in p:
+                    hi -= 1
+                if lo <= x[1] and x[2] <= hi:
+                    return iv(1)
+                if x[2] < lo or x[1] > hi:
+                    return iv(0)
+                raise Undecided()
+        return None
+
+    def run(self, init, env_out=None):
+        env = dict(init) if env_out is None else env_out
+        if env_out is not None:
+            env.update(init)
         bi = 0
         steps = 0
         while True:
@@ -270,7 +327,9 @@ class Interp:
                 if self.call_model is None:
                     raise Unsupported("call")
                 args = [self.operand(env, a) for a in t["args"]]
-                r = self.call_model(t, args)
+                r = self.builtin_call(env, t, args)
+                if r is None:
+                    r = self.call_model(t, args)
                 if r is None:
                     raise Unsupported("unmodelled call %s" % t["callee"].get("path"))
                 if r[0] == "panic":
